@@ -68,7 +68,7 @@ CHECKS.update({
          "handles map to their image or invalid, the manifoldness pass flags exactly the unbounded faces/edges/vertices. Tied by lock step and the identity-token oracle.",
          "Coq proof (collection = logical mesh = immediate deletion; tracking; manifoldness) + lock-step correspondence + logical-mesh oracle", "6 C04"),
  "C12": ("proof", "Theorems: toggling a kind changes only its cache and flag; re-enabling yields exactly the incidences (vertex, face kinds in full; edge kind before re-ordering); the deleted closure and the "
-         "slot exchange of swaps are independent of the enabled subset. 'No out-of-range access with a kind disabled' is decided by sanitizers on the lock-step runs in all 32 mode cells and the twin-mesh oracle.",
+         "slot exchange of swaps are independent of the enabled subset; along whole histories the toggled history and the same history with every toggle removed end in the same core with the same call results for the decidable class indep_ops (Properties_C12_history.v), refuted in general with witnesses replayed on the library (known finding parallel-edge-choice; D13 family). 'No out-of-range access with a kind disabled' is decided by sanitizers on the lock-step runs in all 32 mode cells and the twin-mesh oracle.",
          "Coq proof (re-enable exact, closure independent of caches) + lock step in all incidence subsets x deletion modes under sanitizers + twin-mesh oracle", "6 C12"),
 })
 CHECKS.update({
